@@ -216,6 +216,8 @@ type Anchors struct {
 	Fire      map[*core.Func]bool // call observerData.callback
 
 	Missing []string // unresolved anchors
+	// Unclassified lists fields of anchored structs that the anchor table does not know (added after it was frozen).
+	Unclassified []string
 	mentions map[*core.Func]map[string]bool
 	wrappers map[*core.Func]*core.Func
 }
@@ -259,10 +261,15 @@ func GetAnchors(c *core.Ctx) *Anchors {
 			continue
 		}
 		if !classified[v] {
-			a.Missing = append(a.Missing, "unclassified field "+v)
+			// A field added to an anchored struct after the table was frozen. It is not part of the row/capacity/
+			// table-set/target state the rules were written for; the rules treat it as exempt and every run
+			// reports it in the evidence (assumptions) so that the table can be revisited. Making the whole
+			// analysis undecided here would turn any added field into an alarm on code where the properties hold.
+			a.Unclassified = append(a.Unclassified, v)
 		}
 	}
 	sort.Strings(a.Missing)
+	sort.Strings(a.Unclassified)
 	a.computeMentions()
 	a.deriveRoles()
 	anchorCache[c.M] = a
